@@ -10,13 +10,13 @@ def families(tier, rng):
     # 1. every script of the corpus cut after every step (peer vanishes / server closes)
     for u in users:
         for name, sc in gen.corpus(1, u).items():
-            for sch in gen.cuts(sc, 1, how=("vanish", "vanishall", "srvclose")):
+            for sch in gen.cuts(sc, 1, how=("vanish", "vanishall", "reset", "srvclose")):
                 fam.append(("cut:%s:%s" % (u, name), sch))
     # 2. cut while the j-th backend call of the script is in flight (gated)
     for u in users[:1] if tier == "quick" else users:
         for name, sc in gen.corpus(1, u).items():
             for j in range(1, 26 if tier == "quick" else 40):
-                for end in (["vanish", 1], ["srvclose"]):
+                for end in (["vanish", 1], ["vanish", 1, "reset"], ["srvclose"]):
                     pre = sc[:1] + [["gate", 1, None, j], ["ongate", [end, ["release", 1]], "stop"]] + sc[1:]
                     fam.append(("gatecut:%s:%s" % (u, name), pre))
     # 3. cut while the passive listener is being opened
@@ -26,6 +26,19 @@ def families(tier, rng):
                 sch = [["connect", 1], ["send", 1, "USER u2"], ["lgate", 1, point], ["ongate", [end, ["lrelease", 1]], "stop"],
                        ["send", 1, pasv], ["send", 1, "PWD"]]
                 fam.append(("lsncut:%s" % point, sch))
+    # 4. loop-iteration-granular races between a session ending by itself and server.close(), and a peer that is gone
+    #    (closed or reset) before the server has written its greeting
+    pre = {"fresh": [["connect", 1]], "login": [["connect", 1], ["send", 1, "USER u2"]],
+           "pasv": [["connect", 1], ["send", 1, "USER u2"], ["send", 1, "PASV"], ["dconnect", 1]],
+           "retr": [["connect", 1], ["send", 1, "USER u2"], ["send", 1, "PASV"], ["send", 1, "RETR f"]]}
+    for pname, p in pre.items():
+        for end in (["send", 1, "QUIT"], ["vanish", 1], ["vanish", 1, "reset"], ["sendraw", 1, list(b"\xff\r\n")]):
+            for a in range(0, 9 if tier == "quick" else 16):
+                fam.append(("endrace:%s" % pname, p + [["nq", end], ["iter", a], ["nq", ["srvclose"]], ["tick", 0]]))
+    for end in (["vanish", 1], ["vanish", 1, "reset"]):
+        for a in range(0, 6):
+            fam.append(("early", [["nq", ["connect", 1]], ["iter", a], ["nq", end], ["tick", 0], ["connect", 1], ["send", 1, "USER u2"],
+                                  ["send", 1, "QUIT"]]))
     return fam
 
 
